@@ -13,7 +13,8 @@ Definition close_result (tol : Q) (model expected : result Q) : bool :=
 
 Inductive c14case :=
 | CAgg (num_bits : nat) (d : dist) (op : list term) (len : nat) (alpha tol : Q) (exp_operator exp_bitstring : result Q)
-| CRaw (l : list entry) (alpha tol : Q) (expected : result Q).
+| CRaw (l : list entry) (alpha tol : Q) (expected : result Q)
+| CAlpha (alpha : Q) (accepted : bool).  (* the alpha range check of the circuit evaluators' constructors *)
 
 Definition check_case (c : c14case) : bool :=
   match c with
@@ -21,6 +22,7 @@ Definition check_case (c : c14case) : bool :=
       close_result tol (expectation_with_operator d op alpha) eo
       && close_result tol (expectation_with_bitstring nb d len op alpha) eb
   | CRaw l alpha tol e => close_result tol (get_expectation l alpha) e
+  | CAlpha alpha a => Bool.eqb (alpha_ok alpha) a
   end.
 
 Definition show_case (c : c14case) : list (result Q) :=
@@ -29,4 +31,5 @@ Definition show_case (c : c14case) : list (result Q) :=
       [expectation_with_operator d op alpha; expectation_with_bitstring nb d len op alpha;
        Ok (cvar (map (fun sp => (snd sp, eval_diag op (fst sp))) d) alpha)]
   | CRaw l alpha _ _ => [get_expectation l alpha; Ok (cvar l alpha)]
+  | CAlpha alpha _ => [if alpha_ok alpha then Ok alpha else Err "ValueError"]
   end.
